@@ -31,7 +31,7 @@ func init() {
 				r.Cov["traces_validated_against_impl"] = m.Counts["histories"]
 				r.Cov["evaluations"] = m.Counts["ldap_calls"]
 				r.Cov["distinct_nontrivial"] = len(m.Outc)
-				r.Cov["rule"] = "state = operation history (Add / Modify with one or two changes / Delete / Bind / SetUsers / SetGroups / SetAllowAnonymousBind over a pool of 5 user DNs incl. a case variant and a non-ASCII one, 2 group DNs, 4 user sets incl. users without a usable password and entries sharing one value slice (testdirectory.NewUsers with WithMembersOf)) of length <= depth, breadth-first; every history is executed on a live testdirectory.Directory through a real go-ldap client, every step's result code is compared with a reference store and after the last step every pool DN is searched in both supported forms and every pool user is bound with its right password, a wrong one and the empty one. distinct_nontrivial = distinct (operation kinds, outcome) classes"
+				r.Cov["rule"] = "state = operation history (Add / Modify with one or two changes / Delete / Bind / SetUsers / SetGroups / SetControls / SetAllowAnonymousBind over a pool of 5 user DNs incl. a case variant and a non-ASCII one, 2 group DNs, 4 user sets incl. users without a usable password and entries sharing one value slice (testdirectory.NewUsers with WithMembersOf)) of length <= depth, breadth-first; every history is executed on a live testdirectory.Directory through a real go-ldap client, every step's result code is compared with a reference store and after the last step every pool DN is searched in both supported forms and every pool user is bound with its right password, a wrong one and the empty one. distinct_nontrivial = distinct (operation kinds, outcome) classes"
 				r.Cov["samples"] = m.Samp
 				r.Cov["per_family"] = m.Counts
 				r.Cov["depth_completed"] = m.Counts["depth_completed_min"]
@@ -41,7 +41,7 @@ func init() {
 					"pool DNs are pairwise non-substrings and free of ()*| (the property's precondition)",
 					"values stored through Modify keep their BER octet-string wrapping (pinned by the repository's own suite): a returned value counts as v when it is v or BER(v)",
 					"the password attribute is not modified through LDAP Modify (the wrapped form would change what 'first password value' means)",
-					"a go-ldap call that gets no answer within 30 s is reported as 'no response'",
+					"a go-ldap call that gets no answer within 15 s is reported as 'no response'; the directory is then replaced, and after 6 such events a shard stops exploring",
 				}
 			},
 			Replay: func(p json.RawMessage, c *Ctx) {
@@ -126,6 +126,8 @@ func (o dirOp) String() string {
 		return fmt.Sprintf("SetUsers(#%d)", o.Set)
 	case "setgroups":
 		return fmt.Sprintf("SetGroups(#%d)", o.Set)
+	case "setcontrols":
+		return fmt.Sprintf("SetControls(%d controls)", o.Set)
 	}
 	return fmt.Sprintf("SetAllowAnonymousBind(%v)", o.Flag)
 }
@@ -304,6 +306,25 @@ type dirEnv struct {
 	t    *quietT
 	conn *ldap.Conn
 	kind string
+	// broken: an operation got no answer (a handler of the directory hangs); the directory is replaced before the
+	// next history. noAnswer counts such events: after a handful the shard stops exploring (everything it would
+	// see from then on is the same hang).
+	broken   bool
+	noAnswer int
+}
+
+// restart abandons a directory that no longer answers and starts a fresh one.
+func (e *dirEnv) restart() {
+	old, oldConn := e.d, e.conn
+	go func() {
+		if oldConn != nil {
+			oldConn.Close()
+		}
+		old.Stop() // may never return when a handler hangs with the directory's mutex held
+	}()
+	e.conn = nil
+	n := newDirEnv(e.kind)
+	e.d, e.t, e.conn, e.broken = n.d, n.t, n.conn, false
 }
 
 func newDirEnv(kind string) *dirEnv {
@@ -339,14 +360,20 @@ func (e *dirEnv) reconnect() {
 	if err != nil {
 		panic(fmt.Sprintf("harness: cannot connect to the test directory (%s): %v", e.kind, err))
 	}
-	e.conn.SetTimeout(30 * time.Second)
+	e.conn.SetTimeout(15 * time.Second)
 }
 
 func (e *dirEnv) close() {
 	if e.conn != nil {
 		e.conn.Close()
 	}
-	e.d.Stop()
+	// a directory with a hung handler never stops: do not wait for it for ever
+	done := make(chan struct{})
+	go func() { e.d.Stop(); close(done) }()
+	select {
+	case <-done:
+	case <-time.After(10 * time.Second):
+	}
 }
 
 func (e *dirEnv) reset() {
@@ -361,14 +388,20 @@ func codeOf(err error) int {
 	if err == nil {
 		return 0
 	}
-	if le, ok := err.(*ldap.Error); ok {
+	if le, ok := err.(*ldap.Error); ok && le.ResultCode < 200 {
 		return int(le.ResultCode)
 	}
-	return 999
+	return 999 // go-ldap's own codes (200 and up: network error, timeout, ...) mean that no LDAP answer arrived
 }
 
 // exec performs op on the live directory and returns the LDAP result code (-1 for Set* calls).
-func (e *dirEnv) exec(c *Ctx, o dirOp) int {
+func (e *dirEnv) exec(c *Ctx, o dirOp) (code int) {
+	defer func() {
+		if code == 999 {
+			e.broken = true
+			e.noAnswer++
+		}
+	}()
 	c.Count("operations", 1)
 	switch o.Kind {
 	case "add":
@@ -405,6 +438,13 @@ func (e *dirEnv) exec(c *Ctx, o dirOp) int {
 		e.d.SetGroups(toEntries(groupSet(o.Set))...)
 	case "setanon":
 		e.d.SetAllowAnonymousBind(o.Flag)
+	case "setcontrols":
+		if o.Set == 0 {
+			e.d.SetControls()
+		} else {
+			ctl, _ := gldap.NewControlString("1.2.3.4.5", gldap.WithControlValue("v"))
+			e.d.SetControls(ctl)
+		}
 	}
 	return -1
 }
@@ -457,13 +497,23 @@ func (e *dirEnv) probe(c *Ctx, s *refStore) [][3]string {
 	var out [][3]string
 	search := func(base, filter string, scope int) ([]*ldap.Entry, int) {
 		c.Count("ldap_calls", 1)
+		if e.broken {
+			return nil, 998 // the directory already stopped answering in this history
+		}
 		res, err := e.conn.Search(ldap.NewSearchRequest(base, scope, ldap.NeverDerefAliases, 0, 0, false, filter, nil, nil))
 		if err != nil {
+			if codeOf(err) == 999 {
+				e.broken = true
+				e.noAnswer++
+			}
 			return nil, codeOf(err)
 		}
 		return res.Entries, 0
 	}
 	check := func(form, dn string, want *refEntry, entries []*ldap.Entry, code int) {
+		if code == 998 {
+			return
+		}
 		if code == 999 {
 			out = append(out, [3]string{"C20", "a search gets no LDAP answer", form + " " + short(dn)})
 			return
@@ -515,6 +565,9 @@ func (e *dirEnv) probe(c *Ctx, s *refStore) [][3]string {
 			pws = append(pws, "pw-"+strings.TrimPrefix(strings.ToLower(short(dn)), "cn="))
 		}
 		for _, pw := range pws {
+			if e.broken {
+				break
+			}
 			o := dirOp{Kind: "bind", DN: dn, PW: pw}
 			want := (&refStore{Users: s.Users, Anon: s.Anon}).apply(o)
 			got := e.exec(c, o)
@@ -535,7 +588,14 @@ func (e *dirEnv) probe(c *Ctx, s *refStore) [][3]string {
 
 // runHistory executes one history from the initial state; the final state is probed.
 func runHistory(c *Ctx, env *dirEnv, prop string, h []dirOp, verbose bool) {
+	if env.noAnswer >= 6 && !verbose {
+		c.CapHit = true
+		return
+	}
 	c.Count("histories", 1)
+	if env.broken {
+		env.restart()
+	}
 	env.reset()
 	s := &refStore{Users: cloneEntries(userSet(0)), Groups: cloneEntries(groupSet(0))}
 	kinds := ""
@@ -594,8 +654,13 @@ func dirAlphabet(thorough bool) []dirOp {
 	var ops []dirOp
 	a1 := []codec.Attr{{Type: "mail", Vals: []string{"a@x"}}, {Type: "password", Vals: []string{"pw-new"}}}
 	a2 := []codec.Attr{{Type: "sn", Vals: []string{"x", "y"}}, {Type: "mail", Vals: []string{"a@x"}}, {Type: "password", Vals: []string{"pw-new", "second"}}}
-	for _, dn := range poolUsers {
+	// a3: an attribute without values next to ordinary ones
+	a3 := []codec.Attr{{Type: "description", Vals: []string{}}, {Type: "mail", Vals: []string{"a@x"}}, {Type: "password", Vals: []string{"pw-new"}}}
+	for i, dn := range poolUsers {
 		ops = append(ops, dirOp{Kind: "add", DN: dn, Attrs: a1}, dirOp{Kind: "add", DN: dn, Attrs: a2})
+		if i < 2 {
+			ops = append(ops, dirOp{Kind: "add", DN: dn, Attrs: a3})
+		}
 	}
 	for _, dn := range append(append([]string{}, poolUsers...), poolGroups...) {
 		ops = append(ops, dirOp{Kind: "delete", DN: dn})
@@ -630,6 +695,7 @@ func dirAlphabet(thorough bool) []dirOp {
 		ops = append(ops, dirOp{Kind: "setgroups", Set: i})
 	}
 	ops = append(ops, dirOp{Kind: "setanon", Flag: true}, dirOp{Kind: "setanon", Flag: false})
+	ops = append(ops, dirOp{Kind: "setcontrols", Set: 1}, dirOp{Kind: "setcontrols", Set: 0})
 	for _, dn := range []string{udn("alice"), udn("eve"), ""} {
 		for _, pw := range []string{"pw-alice", "pw-new", ""} {
 			ops = append(ops, dirOp{Kind: "bind", DN: dn, PW: pw})
